@@ -71,6 +71,7 @@ type rSpec struct {
 	FailDials       int           `json:"fail_dials"`       // after the drop, this many dial attempts fail before one succeeds (reconnect loop keeps running)
 	Seq             bool          `json:"seq"`              // run the calls one after the other with a counter snapshot after each (per-outcome deltas)
 	ValidateSession bool          `json:"validate_session"` // hsms.WithSessionIDValidation(true)
+	Equip           bool          `json:"equip,omitempty"`  // equipment role: a T3 expiry also sends S9F9 (one more data frame on the wire)
 	Linktest        time.Duration `json:"linktest"`         // >0: auto-linktest enabled with this interval (the peer answers every Linktest.req)
 	Mirror          string        `json:"mirror"`           // "linktest" | "select": the peer first answers that control request with a DATA secondary reusing its system bytes
 	// cold open: the connection is opened with OpenBackground while the peer is unreachable — the first ColdDials (at least 2)
@@ -382,7 +383,7 @@ func runScenario(spec *rSpec) (*rHistory, []string, string) {
 	}
 	r.peer.mirrorLinktest.Store(spec.Mirror == "linktest")
 	r.peer.mirrorSelect.Store(spec.Mirror == "select")
-	conn, err := rNewConn(r.peer, rConnOpts{T3: spec.T3, Linktest: spec.Linktest, ValidateSession: spec.ValidateSession})
+	conn, err := rNewConn(r.peer, rConnOpts{T3: spec.T3, Linktest: spec.Linktest, ValidateSession: spec.ValidateSession, Equip: spec.Equip})
 	if err != nil {
 		return nil, nil, "config: " + err.Error()
 	}
